@@ -70,7 +70,7 @@ def stub_eom(case):
     eom = object.__new__(EOM)
     eom.thermo = types.SimpleNamespace(effectivePotential=StubPot(*case["pot"]))
     eom.hydrodynamics = types.SimpleNamespace(Tnucl=float(case["Tn"]))
-    eom.errTol = 1e-9
+    eom.errTol = float(case.get("errTol", Fraction(1, 2 ** 30)))
     parts = []
     for (N, y, j, m0) in case["particles"]:
         parts.append(types.SimpleNamespace(
@@ -145,7 +145,10 @@ Definition S2 (f : FieldPt) := sum_list (map (fun x : R => x ^ 2) f).
 Definition pot_dT (f : FieldPt) (T : R) := - 4 * %s * T ^ 3 + 2 * %s * S2 f * T.
 Definition pot_V (f : FieldPt) (T : R) := - %s * T ^ 4 + %s * S2 f * T ^ 2 + %s * S2 f ^ 2.
 Definition e0 (tm : R) (rb : R -> R -> R) :=
-  mk_env pot_dT pot_V %s [%s] (fun _ _ _ => tm) (fun _ x y => rb x y).
+  mk_env %s pot_dT pot_V %s [%s] (fun _ _ _ => tm) (fun _ x y _ _ => rb x y).
+(* same, the oracle returning a combination of the two tolerances it is handed *)
+Definition e0tol (tm : R) :=
+  mk_env %s pot_dT pot_V %s [%s] (fun _ _ _ => tm) (fun _ _ _ xt rt => xt + 3 * rt).
 Definition tab (t : list (list R)) (i k : nat) : R := nth k (nth i t []) 0.
 Definition D0 := mk_Deltas %s %s %s %s.
 Definition fl : FieldPt := [%s].
@@ -158,7 +161,8 @@ Ltac rm := repeat match goal with
   end.
 Ltac ev := %s; rm; interval with (i_prec 90).
 Ltac evn := lazy beta iota; apply Rle_not_lt; ev.
-""" % (R(a), R(b), R(a), R(b), R(c), R(case["Tn"]), parts,
+""" % (R(a), R(b), R(a), R(b), R(c), R(case.get("errTol", Fraction(1, 2 ** 30))), R(case["Tn"]),
+       parts, R(case.get("errTol", Fraction(1, 2 ** 30))), R(case["Tn"]), parts,
        tab(case["Delta00"]), tab(case["Delta02"]), tab(case["Delta20"]), tab(case["Delta11"]),
        "; ".join(R(x) for x in case["fields"]), "; ".join(R(x) for x in case["dPhidz"]), CBV)
 
@@ -194,6 +198,7 @@ class Recorder:
             br = k.get("bracket")
             p.update(path="root", bracket=(float(br[0]), float(br[1])),
                      fa=float(f(br[0])), fb=float(f(br[1])), root=float(res.root),
+                     xtol=k.get("xtol"), rtol=k.get("rtol"),
                      froot=float(f(res.root)))
             return res
         self.mod.minimize_scalar, self.mod.root_scalar = mini, root
@@ -279,7 +284,8 @@ def point_case(rng, kind):
         case["Tn"] = Fraction(float(Tp + rng.choice([1, -1]) * Fraction(2, 10 ** 10)))
     else:
         case["Tn"] = Fraction(float(Tp) - rng.uniform(0.01, 0.2))
-    case.update(c1=c1, c2=c2, Tplus=Tp, Tminus=Tm)
+    case.update(c1=c1, c2=c2, Tplus=Tp, Tminus=Tm,
+                errTol=Fraction(1, 2 ** rng.randint(8, 30)))
     return case
 
 
@@ -335,6 +341,13 @@ def point_eval(ctx, case):
             "Rabs (T - %s) <= %s.\nProof. eexists; eexists; split; [%s | ev]. Qed." % (
                 tm, rb, args, R(Fraction(target)), R(abs(Fraction(target)) * RTOL + ATOL),
                 proof_eq))
+    # the tolerances handed to the solver (xtol + 3 rtol), as seen by the model's oracle
+    tolv = Fraction(float(p["xtol"])) + 3 * Fraction(float(p["rtol"]))
+    goals.append(
+        "Goal exists T v, findPlasmaProfilePoint (e0tol %s) %s = Some (T, v) /\\ "
+        "Rabs (T - %s) <= %s.\nProof. eexists; eexists; split; [%s | ev]. Qed." % (
+            tm, args, R(tolv), R(tolv * RTOL), proof_eq))
+    info.update(xtol=float(p["xtol"]), rtol=float(p["rtol"]))
     rt = R(Fraction(p["root"]))
     goals.append(
         "Goal exists T v, findPlasmaProfilePoint (e0 %s (fun _ _ => %s)) %s = Some (T, v) /\\ "
@@ -428,7 +441,11 @@ MODELS = {
     # walls; top quark and gluon out of equilibrium (two species)
     "xSM_BM1_weak": dict(kind="xsm", geff=1077.5, gluon=True, Tn=100.0),
     # one-field quartic potential of tools/wgmodels.py
-    "quartic1": dict(kind="quartic", Tn=83.0),
+    "quartic1": dict(kind="quartic", unit=1.0, Tn=83.0),
+    # the SAME physics expressed in other units (everything dimensionful rescaled): the property
+    # must not depend on the unit system. TeV: Tn = 0.083; units with Tn ~ 1
+    "quartic1_TeV": dict(kind="quartic", unit=1e-3, Tn=83.0e-3),
+    "quartic1_T1": dict(kind="quartic", unit=1.0 / 80.0, Tn=83.0 / 80.0),
 }
 _CACHE = {}
 
@@ -465,13 +482,14 @@ def build_model(name):
     else:
         import wgmodels
         from WallGo import Particle, Fields
-        veff = wgmodels.quartic1(D=0.2, E=0.05, lam=0.1, T0=80.0, g=100.0)
+        u = cfg["unit"]
+        veff = wgmodels.quartic1(D=0.2, E=0.05, lam=0.1, T0=80.0, g=100.0, unit=u)
         ex = wgmodels.quartic1_exact(**veff.params)
         veff.configureDerivatives(WallGo.VeffDerivativeSettings(
-            temperatureVariationScale=1.0, fieldValueVariationScale=10.0))
+            temperatureVariationScale=1.0 * u, fieldValueVariationScale=10.0 * u))
         veff.effectivePotentialError = 1e-15
         thermo = WallGo.Thermodynamics(veff, Tn, Fields([ex["phi_broken"](Tn)]), Fields([0.0]))
-        ranges = ((80.5, 120.0, 0.05), (40.0, ex["Tspin_broken"] * 0.9999, 0.05))
+        ranges = ((80.5 * u, 120.0 * u, 0.05 * u), (40.0 * u, ex["Tspin_broken"] * 0.9999, 0.05 * u))
         particles = [Particle("top", index=0, msqVacuum=lambda f: 0.5 * f.getField(0) ** 2,
                               msqDerivative=lambda f: np.transpose([f.getField(0)]),
                               statistics="Fermion", totalDOFs=12)]
@@ -482,7 +500,7 @@ def build_model(name):
     thermo.freeEnergyLow.tracePhase(*ranges[1])
     thermo.setExtrapolate()
     hydro = WallGo.Hydrodynamics(thermo, 10.0, 0.01, 1e-10, 1e-10)
-    grid = WallGo.grid3Scales.Grid3Scales(22, 11, 0.2, 0.2, 0.05, 100)
+    grid = WallGo.grid3Scales.Grid3Scales(22, 11, 20.0 / Tn, 20.0 / Tn, 5.0 / Tn, Tn)
     boltzmann = WallGo.BoltzmannSolver(grid, basisM="Cardinal", basisN="Chebyshev")
     boltzmann.updateParticleList(particles)
     eom = WallGo.EOM(boltzmann, thermo, hydro, grid, nf, 0.0, (0.1, 100.0), (-10.0, 10.0),
@@ -491,8 +509,9 @@ def build_model(name):
     return _CACHE[name]
 
 
-def dVdT(veff, fp, T, h=2e-2):
-    """independent 4th-order central difference of the potential"""
+def dVdT(veff, fp, T):
+    """independent 4th-order central difference of the potential (step relative to T)"""
+    h = 2e-4 * T
     f = lambda t: float(np.ravel(veff.evaluate(fp, t))[0])
     return (-f(T + 2 * h) + 8 * f(T + h) - 8 * f(T - h) + f(T - 2 * h)) / (12 * h)
 
@@ -542,12 +561,13 @@ def flux_ref(ens_ik, vmid):
     return T[3, 0], T[3, 3]
 
 
-def run_profile(name, vw, widths, offsets, shape, seed, amp, errTol=1e-6):
+def run_profile(name, vw, widths, offsets, shape, seed, amp, errTol=1e-6, offEq=True):
     """one call of the real EOM.findPlasmaProfile + independent recomputation"""
     from WallGo.containers import BoltzmannDeltas, WallParams
     from WallGo.polynomial import Polynomial
     veff, thermo, hydro, grid, eom, TN, nf = build_model(name)
     eom.errTol = errTol                     # read by findPlasmaProfilePoint at call time
+    eom.includeOffEq = bool(offEq)          # the supplied moments count whatever this flag says
     c1, c2, Tp, Tm, vMid = hydro.findHydroBoundaries(vw)
     vp, vm, _, _ = hydro.findMatching(vw)
     out = dict(c1=c1, c2=c2, Tp=Tp, Tm=Tm, vMid=vMid, vp=vp, vm=vm, vJ=hydro.vJ, Tn=TN)
@@ -636,8 +656,10 @@ TOL_ASYM = 1e-3
 
 
 def tol_cons(errTol):
-    """relative to |c1|, |c2|: the root is located to rtol = errTol/10"""
-    return 10 * errTol
+    """relative to |c1|, |c2|: the root is located to rtol = errTol/10 and
+    |dLHS/dlnT| is a few |c2|, so the residual is below ~0.5 errTol; 1e-5 floor for the
+    harness' own finite-difference enthalpy"""
+    return max(2 * errTol, 1e-5)
 FINDING_KEY = "success-without-root"
 
 
@@ -646,10 +668,11 @@ def registered(ctx, key):
                for k in ctx.known.get("findings", []))
 
 
-def judge(ctx, name, vw, widths, offsets, shape, seed, amp, res, stats, errTol=1e-6):
+def judge(ctx, name, vw, widths, offsets, shape, seed, amp, res, stats, errTol=1e-6,
+          offEq=True):
     """evaluate the property on one profile; report failing inputs"""
     rep = dict(kind="profile", model=name, vw=vw, widths=widths, offsets=offsets,
-               moments=shape, seed=seed, amp=amp, errTol=errTol)
+               moments=shape, seed=seed, amp=amp, errTol=errTol, offEq=offEq)
     TOL_CONS = tol_cons(errTol)
     fails = {}
 
@@ -730,7 +753,8 @@ def judge(ctx, name, vw, widths, offsets, shape, seed, amp, res, stats, errTol=1
                                d["k"], d["r30"], d["T"], d["v"], d["path"], tag, vw),
                  dict(rep, k=d["k"]))
         if abs(d["r33"]) > TOL_CONS:
-            if d["path"] == "early" and br == "hybrid" and shape != "none":
+            if d["path"] == "early" and shape != "none" and br in ("hybrid", "detonation"):
+                # (v- = cs on hybrids, v- -> cs on detonations just above the Jouguet velocity)
                 # success reported although the LHS has no root: the minimum is returned
                 stats.setdefault("finding", []).append(dict(rep, k=d["k"], r33=d["r33"],
                                                             T=d["T"], v=d["v"],
@@ -782,17 +806,20 @@ def direct_validation(ctx):
         cs = math.sqrt(float(thermo.csqLowT(TN)))
         weak = MODELS[name].get("geff") is not None
         nd, nh, nt = ctx.n(2, 14), ctx.n(1, 8), ctx.n(1, 8)
-        if name == "quartic1":
+        if name.startswith("quartic1"):
             nd, nh, nt = ctx.n(1, 8), ctx.n(1, 5), ctx.n(1, 5)
         if weak:
             # weak transition: (T+ - Tn)/Tn < 1e-3 for subsonic walls, v+ > 1/3
             vws = [rng.uniform(0.35, 0.44) for _ in range(nd)] + [rng.uniform(0.2, 0.33)]
         else:
             vws = [rng.uniform(max(hydro.vMin, 0.05) + 0.02, cs - 0.02) for _ in range(nd)]
+            # one slow wall per model (largest dLHS/dT at the root)
+            vws.append(rng.uniform(max(hydro.vMin, 0.05) + 0.02, 0.3))
         # (quartic1: the broken phase ends at its spinodal; stay where T- is tabulated)
-        hyb_hi = min(vJ - 0.004, cs + 0.02) if name == "quartic1" else vJ - 0.004
+        hyb_hi = min(vJ - 0.004, cs + 0.02) if name.startswith("quartic1") else vJ - 0.004
         vws += [rng.uniform(cs + 0.004, hyb_hi) for _ in range(nh)]
         vws += [rng.uniform(vJ + 0.01, 0.95) for _ in range(nt)]
+        vws.append(rng.uniform(vJ + 0.003, vJ + 0.02))       # detonation just above Jouguet
         for vw in vws:
             plan.append((name, round(vw, 4)))
     for name, vw in plan:
@@ -801,8 +828,9 @@ def direct_validation(ctx):
         for shape in ("none", "bump", "flat"):
             seed = rng.randint(0, 10 ** 9)
             amp = 10 ** rng.uniform(-4, -2.7) if shape != "none" else 0.0
+            offEq = shape != "bump" or rng.random() < 0.5
             try:
-                res = run_profile(name, vw, widths, offsets, shape, seed, amp)
+                res = run_profile(name, vw, widths, offsets, shape, seed, amp, offEq=offEq)
             except Exception as ex:                      # noqa: BLE001
                 import traceback
                 ctx.log("profile raised", traceback.format_exc())
@@ -814,7 +842,7 @@ def direct_validation(ctx):
             if res.get("nohydro"):
                 ctx.count("profile_skipped_no_hydro", nontrivial=False)
                 break
-            judge(ctx, name, vw, widths, offsets, shape, seed, amp, res, stats)
+            judge(ctx, name, vw, widths, offsets, shape, seed, amp, res, stats, offEq=offEq)
             if shape == "none":
                 # the same equilibrium profile with the solver's DEFAULT tolerance
                 res3 = run_profile(name, vw, widths, offsets, shape, seed, amp, errTol=1e-3)
@@ -845,7 +873,8 @@ def direct_validation(ctx):
                                            "seed", "amp")}
             base.update(kind="profile", errTol=rec_in.get("errTol", 1e-6))
             for d in res.get("points", []):
-                if d["path"] == "early" and res["branch"] == "hybrid" and res["success"] and \
+                if d["path"] == "early" and res["branch"] in ("hybrid", "detonation") and \
+                        res["success"] and \
                         abs(d["r33"]) > tol_cons(base["errTol"]):
                     recorded.append(dict(base, k=d["k"], r33=d["r33"], T=d["T"], v=d["v"],
                                          fmin_rel=d["fmin_rel"]))
@@ -945,8 +974,9 @@ def run(ctx):
         "anisotropic Delta tables (4 columns, random column index); decision cases built "
         "around a hydrodynamic state (subsonic and supersonic) with T+/T- 3-20% away from "
         "the root, |Tn-T+| in {0, 5e-11, 2e-10, >1e-2}, and a no-root variant; cases whose "
-        "decisions have relative margin < 1e-6 are skipped. Real models: xSM BM1 and the same "
-        "with 10x light d.o.f. (weak: (T+-Tn)/Tn < 1e-3), wall velocities drawn in the "
+        "decisions have relative margin < 1e-6 are skipped. Real models: xSM BM1, the same "
+        "with 10x light d.o.f. (weak: (T+-Tn)/Tn < 1e-3), a one-field quartic in GeV-like units "
+        "(Tn=83) and the same physics in units with Tn=0.083 and Tn~1; wall velocities drawn in the "
         "deflagration, hybrid and detonation windows, random widths 3-8/Tn and offsets, "
         "moments none / wall-localised / same size everywhere, built from explicit on-shell "
         "momentum ensembles (Delta02 != Delta20); every grid point is one evaluation.")
@@ -964,7 +994,8 @@ def replay(rep):
     print(json.dumps({k: v for k, v in rep.items() if k not in ("T", "v")}, indent=1))
     if rep.get("kind") == "profile" or "model" in rep:
         res = run_profile(rep["model"], rep["vw"], rep["widths"], rep["offsets"],
-                          rep["moments"], rep["seed"], rep["amp"], errTol=rep.get("errTol", 1e-6))
+                          rep["moments"], rep["seed"], rep["amp"], errTol=rep.get("errTol", 1e-6),
+                          offEq=rep.get("offEq", True))
         TOL_CONS = tol_cons(rep.get("errTol", 1e-6))
         print("branch", res["branch"], "success", res["success"], "T+ %.8g T- %.8g v+ %.8g v- %.8g"
               % (res["Tp"], res["Tm"], res["vp"], res["vm"]))
